@@ -104,6 +104,7 @@ func init() {
 		NotDec: "that results equal the ledger; paging completeness over every index on values; robustness of encoding/json and the websocket/http stacks to arbitrary bytes.",
 		Run:    runC18,
 		Controls: []control{
+			{Name: "decoder-panics", File: "common/types/hash.go", Old: "func (h *Hash) UnmarshalText(input []byte) error {\n", New: "func (h *Hash) UnmarshalText(input []byte) error {\n\tif len(input) == 1 {\n\t\tpanic(\"short hash\")\n\t}\n", ExpectKeySub: "K8-decoder-panic"},
 			{Name: "page-guard-removed", File: "rpc/api/embedded/token.go", Old: "func (a *TokenAPI) GetAll(pageIndex, pageSize uint32) (*TokenList, error) {\n\tif pageSize > api.RpcMaxPageSize {\n\t\treturn nil, api.ErrPageSizeParamTooBig\n\t}\n", New: "func (a *TokenAPI) GetAll(pageIndex, pageSize uint32) (*TokenList, error) {\n", ExpectKeySub: "TokenAPI).GetAll"},
 			{Name: "getrange-32bit", File: "rpc/api/utils.go", Old: "start := uint64(index) * uint64(count)", New: "start := uint64(index * count)", ExpectKeySub: "GetRange"},
 			{Name: "recover-removed", File: "rpc/server/service.go", Old: "\t\tif err := recover(); err != nil {", New: "\t\tif err := error(nil); err != nil {", ExpectKeySub: "K8-recover"},
@@ -114,6 +115,39 @@ func init() {
 }
 
 func runC18(r *Run) {
+	// parameter decoding runs on the call goroutine *before* callback.call installs its recover: a
+	// decoder that can panic is a remote kill switch
+	dreg := r.Region("DECODE", regionEntries["DECODE"], false)
+	nd := 0
+	for f := range dreg {
+		name := r.P.FuncName(f)
+		if name == "" || f.Blocks == nil {
+			continue
+		}
+		nd++
+		file, line := r.P.FnPos(f)
+		bad := ""
+		for _, b := range f.Blocks {
+			if pn, ok := lastInstr(b).(*ssa.Panic); ok {
+				file, line = r.P.Pos(pn.Pos())
+				bad = "an explicit panic"
+			}
+		}
+		for _, cs := range r.P.Calls(f, true) {
+			if cs.Callee == "common.DealWithErr" || strings.HasSuffix(cs.Method, "Panic") || cs.Callee == "encoding/hex.Decode" || cs.Callee == "builtin:copy" && false {
+				file, line = cs.File, cs.Line
+				bad = "a call of " + cs.Callee + " (panics on error / writes past a fixed-size destination)"
+			}
+		}
+		if bad != "" {
+			r.viol("K8-decoder-panic", name, "no panic while decoding parameters", fmt.Sprintf("%s, which decodes request parameters on the RPC call goroutine before any recover is installed, contains %s (%s:%d): one request terminates the node", name, bad, file, line), "parsePositionalArguments runs outside the recovering defer of callback.call", file, line)
+		} else {
+			r.pass("K8-decoder-panic", name, "no panic while decoding parameters", "", "parsePositionalArguments runs outside the recovering defer of callback.call", file, line)
+		}
+	}
+	if nd < 10 {
+		r.viol("vacuous-rule", "", "decoder region", fmt.Sprintf("only %d decoder functions found", nd), "", "", 0)
+	}
 	// the store-level iterator behind the paged "unreceived" answers returns exactly atMost entries when more exist
 	gu := "chain/account/mailbox.(*mailbox).GetUnreceivedAccountBlockHashes"
 	r.Alias("$it", "recv.DB.NewIterator(mailbox.getPendingBlocksIterator())")
